@@ -8,7 +8,9 @@
 //! prime field for shipped towers) built bottom-up exactly as the tower is defined, schoolbook multiplication
 //! modulo the binomials, x^(p^k) by square-and-multiply.  The library is never used to compute a wanted value
 //! (only the trusted conversions F::from(u64) / into_bigint / to_base_prime_field_elements).
+#![allow(dead_code, unused_imports)]
 use algebra_mc::core::*;
+use rayon::prelude::*;
 use algebra_mc::fpaccess::FpAccess;
 use algebra_mc::seq::run_seq;
 use algebra_mc::toy::gen_towers::TOWER_TABLE;
@@ -493,8 +495,10 @@ struct Plan<B: Base> {
     unary: Vec<(Uni<B>, String, bool, Option<usize>)>,
     pairs: Vec<(Uni<B>, Uni<B>, String)>,
     sparse_left: Uni<B>,
+    sparse_left_small: Option<Uni<B>>,
     coef_all: Option<Vec<B::C>>,
     coef_small: Vec<B::C>,
+    coef_tiny: Vec<B::C>,
     scalars: Vec<B::C>,
     cyclo: Vec<El<B>>,
     cyclo_out: Vec<El<B>>,
@@ -505,12 +509,16 @@ struct Plan<B: Base> {
 impl<B: Base> Plan<B> {
     /// coefficient letters for a sparse operand of m base-prime-field coordinates
     fn coef(&self, m: usize) -> &Vec<B::C> {
+        let fits = |l: &Vec<B::C>| (l.len() as f64).powi(m as i32) * self.sparse_left.len() as f64 <= self.sparse_budget as f64;
         if let Some(all) = &self.coef_all {
-            if (all.len() as f64).powi(m as i32) * self.sparse_left.len() as f64 <= self.sparse_budget as f64 {
+            if fits(all) {
                 return all;
             }
         }
-        &self.coef_small
+        if fits(&self.coef_small) {
+            return &self.coef_small;
+        }
+        &self.coef_tiny
     }
 }
 
@@ -886,14 +894,33 @@ fn sparse_sweep<B: Base, F: Field<BasePrimeField = B::F>>(
     positions: &[usize],
     apply: impl Fn(&mut F, &[B::F]) + Sync,
 ) {
-    let t = &fx.t;
     let m = positions.len();
     let letters = plan.coef(m);
-    let nl = plan.sparse_left.len();
+    sparse_inner::<B, F>(ctx, fx, &format!("{}/sparse/{site}", fx.name), site, positions, &plan.sparse_left, letters, &apply);
+    // all sparse operands x a small structured set of left operands, where the pass above had to fall back to fewer letters
+    if let (Some(all), Some(small_left)) = (&plan.coef_all, &plan.sparse_left_small) {
+        if letters.len() < all.len() && (all.len() as f64).powi(m as i32) * small_left.len() as f64 <= plan.sparse_budget as f64 {
+            sparse_inner::<B, F>(ctx, fx, &format!("{}/sparse/{site}/all_operands", fx.name), site, positions, small_left, all, &apply);
+        }
+    }
+}
+
+fn sparse_inner<B: Base, F: Field<BasePrimeField = B::F>>(
+    ctx: &mut Ctx,
+    fx: &Fx<B>,
+    sweep: &str,
+    site: &'static str,
+    positions: &[usize],
+    left: &Uni<B>,
+    letters: &Vec<B::C>,
+    apply: &(impl Fn(&mut F, &[B::F]) + Sync),
+) {
+    let t = &fx.t;
+    let m = positions.len();
+    let nl = left.len();
     let na = letters.len() as u64;
     let nops = na.pow(m as u32);
-    let left = &plan.sparse_left;
-    ctx.sweep(&format!("{}/sparse/{site}", fx.name), nl * nops, |i, loc| {
+    ctx.sweep(sweep, nl * nops, |i, loc| {
         let [il, mut io] = unrank(i, [nl, nops]);
         let x = left.get(&t.b, il);
         let mut sp = t.zero();
@@ -1041,7 +1068,19 @@ fn toy_setup<F: PrimeField>(ctx: &mut Ctx, name: &str, p: u64, consts: Vec<(usiz
     let whole = Uni::Alpha { letters: all_letters.clone(), deg };
     let qf = factor(q - 1);
     let one = t.one();
-    let gamma = (p..q).map(|i| whole.get(&b, i)).find(|x| qf.iter().all(|l| t.pow(x, &[(q - 1) / l]) != one)).expect("primitive element");
+    // candidates: digits of i in reversed coordinate order (top coordinate first) plus 1, so that they do not lie in a subfield
+    let gamma = (1..q)
+        .map(|i| {
+            let d = whole.get(&b, i);
+            let mut x = t.zero();
+            for k in 0..deg {
+                x[deg - 1 - k] = d[k];
+            }
+            x[0] = b.add(x[0], 1);
+            x
+        })
+        .find(|x| qf.iter().all(|l| t.pow(x, &[(q - 1) / l]) != one))
+        .expect("primitive element");
     ctx.validate(t.pow(&gamma, &[q - 1]) == one, &format!("{name}: gamma^(q-1) != 1"));
     let subfield = |d: usize, cap: u64| -> Vec<El<Zp<F>>> {
         let n = p.pow(d as u32) - 1;
@@ -1072,9 +1111,9 @@ fn toy_setup<F: PrimeField>(ctx: &mut Ctx, name: &str, p: u64, consts: Vec<(usiz
     if (l_alpha.len() as u64).pow(deg as u32) <= 5000 {
         s.extend(Uni::<Zp<F>>::Alpha { letters: l_alpha.clone(), deg }.to_vec(&b));
     } else {
-        let bases: Vec<u64> = if ctx.quick() { vec![0, g] } else { vec![0, g, 1] };
-        for base in bases {
-            for v in deviation_ball(&vec![base; deg], &l4, 2) {
+        let bases: Vec<(u64, usize)> = if ctx.quick() { vec![(0, 2), (g, 1)] } else { vec![(0, 2), (g, 2), (1, 2)] };
+        for (base, d) in bases {
+            for v in deviation_ball(&vec![base; deg], &l4, d) {
                 s.push(to_el(t, &v));
             }
         }
@@ -1085,42 +1124,55 @@ fn toy_setup<F: PrimeField>(ctx: &mut Ctx, name: &str, p: u64, consts: Vec<(usiz
     }
     s.push(gamma);
     let s = dedup_els(t, s);
-    for x in s.iter().take(1500) {
-        // Frobenius oracle: linear form == repeated p-th powers; it is the identity at k = deg
-        let mut w = *x;
-        for k in 0..=kmax {
-            if k > 0 {
-                w = t.pow(&w, &[p]);
+    let bad: Vec<String> = s
+        .par_iter()
+        .take(1500)
+        .filter_map(|x| {
+            // Frobenius oracle: linear form == repeated p-th powers; it is the identity at k = deg
+            let mut w = *x;
+            for k in 0..=kmax {
+                if k > 0 {
+                    w = t.pow(&w, &[p]);
+                }
+                if fx.frob_lin(x, k) != w {
+                    return Some(format!("{name}: linear Frobenius oracle != x^(p^{k}) at {}", t.show(x)));
+                }
+                if k == deg && w != *x {
+                    return Some(format!("{name}: x^(p^deg) != x at {}", t.show(x)));
+                }
             }
-            ctx.validate(fx.frob_lin(x, k) == w, &format!("{name}: linear Frobenius oracle != x^(p^{k}) at {}", t.show(x)));
-        }
-        ctx.validate(t.frob_direct(x, deg) == *x, &format!("{name}: x^(p^deg) != x at {}", t.show(x)));
-        // norm oracle: determinant form == product of conjugates
-        let bd = t.top().bd;
-        let mut prod = one;
-        for i in 0..t.top().k {
-            prod = t.mul(&prod, &fx.frob_lin(x, i * bd));
-        }
-        ctx.validate(t.norm_det(x) == prod, &format!("{name}: norm oracle (determinant) != product of conjugates at {}", t.show(x)));
-    }
+            // norm oracle: determinant form == product of conjugates
+            let bd = t.top().bd;
+            let mut prod = one;
+            for i in 0..t.top().k {
+                prod = t.mul(&prod, &fx.frob_lin(x, i * bd));
+            }
+            if t.norm_det(x) != prod {
+                return Some(format!("{name}: norm oracle (determinant) != product of conjugates at {}", t.show(x)));
+            }
+            None
+        })
+        .collect();
+    ctx.validate(bad.is_empty(), &bad.first().cloned().unwrap_or_default());
     let s_uni = Uni::list(s.clone());
     // unary universes
-    let umax: u64 = ctx.t(6_000_000, 300_000_000);
+    let umax: u64 = ctx.t(3_000_000, 300_000_000);
     let mut un: Vec<(Uni<Zp<F>>, String, bool, Option<usize>)> = Vec::new();
     if q <= umax {
         un.push((whole.clone(), "all".into(), false, Some(kmax)));
     } else {
-        // degree 12
+        un.push((s_uni.clone(), "structured".into(), false, Some(kmax)));
+    }
+    if q > umax && deg == 12 {
         let half = Uni::Alpha { letters: all_letters.clone(), deg: deg / 2 };
         let l3 = vec![0, 1, p - 1];
-        un.push((s_uni.clone(), "structured".into(), false, Some(kmax)));
         let hd = deg / 2;
         let split = |lo: &Uni<Zp<F>>, hi: &Uni<Zp<F>>| Uni::Split { lo: Box::new(lo.clone()), hi: Box::new(hi.clone()), hd };
         let zero_half = Uni::list(vec![t.zero()]);
         if p == 7 {
             un.push((half.clone(), "c1=0(all of Fp6)".into(), true, Some(kmax)));
             if ctx.quick() {
-                un.push((Uni::Alpha { letters: l3, deg }, "coords{0,1,-1}".into(), false, Some(kmax)));
+                un.push((Uni::Alpha { letters: l3, deg }, "coords{0,1,-1}".into(), false, Some(deg + 1)));
             } else {
                 un.push((Uni::Alpha { letters: l4.clone(), deg }, "coords{0,1,-1,g}".into(), false, Some(kmax)));
                 un.push((split(&zero_half, &half), "c0=0".into(), false, Some(kmax)));
@@ -1146,7 +1198,8 @@ fn toy_setup<F: PrimeField>(ctx: &mut Ctx, name: &str, p: u64, consts: Vec<(usiz
     // every proper subfield (most are not coordinate subspaces) as its own universe
     for d in &divisors {
         let n = p.pow(*d as u32);
-        if n <= ctx.t(200_000, 6_000_000) && n < q {
+        let half_pushed = q > umax && deg == 12 && (p == 7 || ctx.thorough()) && *d == deg / 2;
+        if n <= ctx.t(200_000, 6_000_000) && n < q && !half_pushed {
             un.push((Uni::list(subfield(*d, u64::MAX)), format!("subfield_p^{d}"), true, Some(kmax)));
         }
     }
@@ -1174,6 +1227,13 @@ fn toy_setup<F: PrimeField>(ctx: &mut Ctx, name: &str, p: u64, consts: Vec<(usiz
         }
     }
     let sparse_left = if q <= 250_000 { whole.clone() } else { s_uni.clone() };
+    let mut sl: Vec<El<Zp<F>>> = vec![gamma];
+    for base in [0, g] {
+        for v in deviation_ball(&vec![base; deg], &l4, 1) {
+            sl.push(to_el(t, &v));
+        }
+    }
+    let sparse_left_small = Some(Uni::list(dedup_els(t, sl)));
     let scalars: Vec<u64> = if (q as f64) * (p as f64) <= 5e7 {
         all_letters.clone()
     } else {
@@ -1202,12 +1262,12 @@ fn toy_setup<F: PrimeField>(ctx: &mut Ctx, name: &str, p: u64, consts: Vec<(usiz
     }
     ctx.validate(c == one, &format!("{name}: h^Phi != 1"));
     ctx.validate(dedup_els(t, cyc.clone()).len() as u64 == phi, &format!("{name}: cyclotomic subgroup enumeration is not {phi} distinct elements"));
-    ctx.validate(cyc.iter().all(|c| t.pow(c, &[phi]) == one), &format!("{name}: some enumerated element has c^Phi != 1"));
+    ctx.validate(cyc.par_iter().all(|c| t.pow(c, &[phi]) == one), &format!("{name}: some enumerated element has c^Phi != 1"));
     let cyclo_out: Vec<El<Zp<F>>> = s.iter().filter(|x| !t.is_zero(x) && t.pow(x, &[phi]) != one).take(300).copied().collect();
     let mut exps: Vec<Vec<u64>> = vec![vec![0], vec![1], vec![2], vec![3], vec![5], vec![7], vec![phi - 1], vec![phi], vec![phi + 1], vec![3, 0], vec![0, 0]];
     exps.push(vec![u64::MAX]);
-    exps.push(vec![GENERIC64]);
     if !(ctx.quick() && phi > 5000) {
+        exps.push(vec![GENERIC64]);
         exps.push(vec![0, 1]);
         exps.push(vec![u64::MAX, 1]);
         exps.push(vec![GENERIC64, 0]);
@@ -1217,13 +1277,15 @@ fn toy_setup<F: PrimeField>(ctx: &mut Ctx, name: &str, p: u64, consts: Vec<(usiz
         unary: un,
         pairs: pr,
         sparse_left,
+        sparse_left_small,
         coef_all: Some(all_letters),
+        coef_tiny: vec![0, 1, g],
         coef_small: l4,
         scalars,
         cyclo: cyc,
         cyclo_out,
         exps,
-        sparse_budget: ctx.t(60_000_000, 400_000_000),
+        sparse_budget: (ctx.t(1.2e8, 6e9) / (deg as f64).powf(1.5)) as u64,
         linear_frob_from: 50_000,
     };
     Some((fx, plan))
@@ -1280,7 +1342,8 @@ fn shipped_setup<F: PrimeField>(ctx: &mut Ctx, name: &str, consts: Vec<(usize, V
     let d1 = ball(1);
     // frobenius subset: 12 elements spread over the dev-2 list + one with all letters
     let d2 = if du == 2 { u.clone() } else { ball(2) };
-    let mut fsub: Vec<El<Lp<F>>> = (0..11).map(|i| d2[(i * (d2.len() - 1)) / 10]).collect();
+    let nf = ctx.t(63usize, 127);
+    let mut fsub: Vec<El<Lp<F>>> = (0..nf).map(|i| d2[(i * (d2.len() - 1)) / (nf - 1)]).collect();
     let mut mixed = t.zero();
     for i in 0..deg {
         mixed[i] = letters[(i + 1) % letters.len()];
@@ -1294,8 +1357,10 @@ fn shipped_setup<F: PrimeField>(ctx: &mut Ctx, name: &str, consts: Vec<(usize, V
     let mut pr = Vec::new();
     if ctx.quick() {
         pr.push((Uni::list(d1.clone()), Uni::list(d1.clone()), "dev1_x_dev1".into()));
-        pr.push((Uni::list(u.clone()), Uni::list(fsub.clone()), format!("dev{du}_x_12")));
-        pr.push((Uni::list(fsub.clone()), Uni::list(u.clone()), format!("12_x_dev{du}")));
+        let s12: Vec<El<Lp<F>>> = fsub.iter().step_by((fsub.len() / 12).max(1)).copied().chain(std::iter::once(mixed)).collect();
+        let s12 = Uni::list(dedup_els(t, s12));
+        pr.push((Uni::list(u.clone()), s12.clone(), format!("dev{du}_x_12")));
+        pr.push((s12, Uni::list(u.clone()), format!("12_x_dev{du}")));
     } else if deg <= 6 {
         pr.push((Uni::list(d2.clone()), Uni::list(d2.clone()), "dev2_x_dev2".into()));
     } else {
@@ -1324,19 +1389,23 @@ fn shipped_setup<F: PrimeField>(ctx: &mut Ctx, name: &str, consts: Vec<(usize, V
     }
     xs.push(alt);
     xs.push(d2[d2.len() / 3]);
+    let computed: Vec<(El<Lp<F>>, bool, bool)> = xs
+        .par_iter()
+        .filter(|x| !t.is_zero(x))
+        .map(|x| {
+            let c = t.pow_big(x, &e);
+            (c, t.pow_big(&c, &phi) == t.one(), t.pow_big(x, &phi) != t.one())
+        })
+        .collect();
     let mut cyc = Vec::new();
-    for x in &xs {
-        if t.is_zero(x) {
-            continue;
-        }
-        let c = t.pow_big(x, &e);
-        ctx.validate(t.pow_big(&c, &phi) == t.one(), &format!("{name}: x^((q-1)/Phi) is not in the subgroup of order Phi"));
-        cyc.push(c);
+    for (c, ok, _) in &computed {
+        ctx.validate(*ok, &format!("{name}: x^((q-1)/Phi) is not in the subgroup of order Phi"));
+        cyc.push(*c);
     }
     cyc.push(t.one());
     let cyc = dedup_els(t, cyc);
     ctx.validate(cyc.len() >= 4, &format!("{name}: fewer than 4 distinct cyclotomic elements"));
-    let cyclo_out: Vec<El<Lp<F>>> = xs.iter().filter(|x| !t.is_zero(x) && t.pow_big(x, &phi) != t.one()).take(4).copied().collect();
+    let cyclo_out: Vec<El<Lp<F>>> = xs.iter().filter(|x| !t.is_zero(x)).zip(computed.iter()).filter(|(_, c)| c.2).map(|(x, _)| *x).take(4).collect();
     let exps: Vec<Vec<u64>> = vec![vec![0], vec![1], vec![2], vec![3], vec![7], vec![GENERIC64], vec![u64::MAX], vec![3, 0], vec![u64::MAX, 1], vec![0, 1]];
     let coef_small = if ctx.quick() { vec![F::ZERO, F::ONE, g] } else { vec![F::ZERO, F::ONE, -F::ONE, g] };
     ctx.bound(&format!("{name}.alphabet"), format!("deg={deg} letters={} unary=dev<={du} ({} elements) frobenius_subset={} k<={kmax} cyclotomic={}", letters.len(), u.len(), fsub.len(), cyc.len()));
@@ -1344,7 +1413,9 @@ fn shipped_setup<F: PrimeField>(ctx: &mut Ctx, name: &str, consts: Vec<(usize, V
         unary: un,
         pairs: pr,
         sparse_left: Uni::list(d1),
+        sparse_left_small: None,
         coef_all: Some(letters.clone()),
+        coef_tiny: vec![F::ZERO, F::ONE, g],
         coef_small,
         scalars: letters,
         cyclo: cyc,
@@ -1724,47 +1795,50 @@ fn probe_child() -> ! {
     std::process::exit(0)
 }
 
-fn probe_cubic_from_bool(ctx: &mut Ctx) {
+/// runs the probe in a child PROCESS (a stack overflow cannot be caught in-process), watched by a thread that
+/// kills it after 2 s; joined at the end of main
+fn probe_start(ctx: &Ctx) -> Option<std::thread::JoinHandle<String>> {
     if ctx.replay.is_some() || ctx.only.as_deref().map(|o| !"probe/cubic_from_bool".contains(o)).unwrap_or(false) {
-        return;
+        return None;
     }
-    let exe = std::env::current_exe().expect("current_exe");
-    let mut child = match std::process::Command::new(exe).arg("--probe-cubic-from-bool").stdout(std::process::Stdio::piped()).stderr(std::process::Stdio::null()).spawn() {
-        Ok(c) => c,
-        Err(e) => {
-            ctx.bound("probe.CubicExtField::from(bool)", format!("could not spawn the probe: {e}"));
-            return;
-        }
-    };
-    let t0 = std::time::Instant::now();
-    let outcome = loop {
-        match child.try_wait() {
-            Ok(Some(st)) => {
-                use std::os::unix::process::ExitStatusExt;
-                let mut out = String::new();
-                if let Some(mut so) = child.stdout.take() {
-                    use std::io::Read;
-                    let _ = so.read_to_string(&mut out);
+    let exe = std::env::current_exe().ok()?;
+    let mut child = std::process::Command::new(exe).arg("--probe-cubic-from-bool").stdout(std::process::Stdio::piped()).stderr(std::process::Stdio::null()).spawn().ok()?;
+    Some(std::thread::spawn(move || {
+        let t0 = std::time::Instant::now();
+        loop {
+            match child.try_wait() {
+                Ok(Some(st)) => {
+                    use std::os::unix::process::ExitStatusExt;
+                    let mut out = String::new();
+                    if let Some(mut so) = child.stdout.take() {
+                        use std::io::Read;
+                        let _ = so.read_to_string(&mut out);
+                    }
+                    return if let Some(sig) = st.signal() {
+                        format!("child killed by signal {sig} (stack overflow: the impl calls itself unconditionally)")
+                    } else if out.starts_with("returned") {
+                        format!("returned: {}", out.trim())
+                    } else {
+                        format!("child exit status {:?}, no value returned", st.code())
+                    };
                 }
-                break if let Some(sig) = st.signal() {
-                    format!("child killed by signal {sig} (stack overflow: the impl calls itself unconditionally)")
-                } else if out.starts_with("returned") {
-                    format!("returned: {}", out.trim())
-                } else {
-                    format!("child exit status {:?}, no value returned", st.code())
-                };
-            }
-            Ok(None) => {
-                if t0.elapsed().as_secs() >= 5 {
-                    let _ = child.kill();
-                    let _ = child.wait();
-                    break "did not return within 5 s (infinite recursion compiled to a loop); child killed".to_string();
+                Ok(None) => {
+                    if t0.elapsed().as_millis() >= 2000 {
+                        let _ = child.kill();
+                        let _ = child.wait();
+                        return "did not return within 2 s (the unconditional self-call was compiled to an endless loop); child killed".to_string();
+                    }
+                    std::thread::sleep(std::time::Duration::from_millis(20));
                 }
-                std::thread::sleep(std::time::Duration::from_millis(20));
+                Err(e) => return format!("wait failed: {e}"),
             }
-            Err(e) => break format!("wait failed: {e}"),
         }
-    };
+    }))
+}
+
+fn probe_finish(ctx: &mut Ctx, probe: Option<std::thread::JoinHandle<String>>) {
+    let Some(h) = probe else { return };
+    let outcome = h.join().unwrap_or_else(|_| "probe thread panicked".into());
     println!("PROBE (outside the property text, not a verdict): <CubicExtField<P> as From<bool>>::from(true) on T7Fq3: {outcome}");
     ctx.add_sample("probe/cubic_from_bool", outcome.clone());
     ctx.bound("probe.CubicExtField::from(bool)", outcome);
@@ -1807,6 +1881,7 @@ fn main() {
         probe_child();
     }
     let mut ctx = Ctx::from_args("C02");
+    let probe = probe_start(&ctx);
     ctx.require(&[
         "quad:nonresidue_is_-1",
         "quad:general",
@@ -1850,7 +1925,7 @@ fn main() {
     ctx.assume("cyclotomic claims are made only on the subgroup of order Phi_deg(p); outside it the calls are made and differences are reported as a metric");
     ctx.bound("toy_towers", TOWER_TABLE.iter().map(|r| r.0).collect::<Vec<_>>().join(","));
     ctx.bound("shipped_towers", SHIPPED_NAMES.join(","));
-    ctx.bound("frobenius_powers", "toys: k = 0..=2*deg on every element of every unary universe; shipped: k = 0..=deg+1 (quick) / 2*deg (thorough) on a 12-element subset");
+    ctx.bound("frobenius_powers", "toys: k = 0..=2*deg on every element of every unary universe; shipped: k = 0..=deg+1 (quick) / 2*deg (thorough) on a 64 (quick) / 128 (thorough) element subset");
 
     algebra_mc::toy_fp2_towers!(t2, &mut ctx);
     algebra_mc::toy_fp3_towers!(t3, &mut ctx);
@@ -1868,6 +1943,6 @@ fn main() {
     seq_model::<gt::T7Fq6x32>(&mut ctx, "T7Fq6x32", d6);
     seq_model::<gt::T7Fq6x23>(&mut ctx, "T7Fq6x23", d6);
     seq_model::<gt::T7Fq12>(&mut ctx, "T7Fq12", 3);
-    probe_cubic_from_bool(&mut ctx);
+    probe_finish(&mut ctx, probe);
     std::process::exit(ctx.finish());
 }
